@@ -158,13 +158,13 @@ theorem omin_le_right (a b : Option α) (x : α) (h : b = some x) : ∃ y, omin 
     · exact ⟨a, by simp [omin, hb], not_lt.1 hb⟩
 
 /-- the step function of `relax` -/
-def relaxF (G : Graph α) (d : List (Option α)) (v : Nat) (acc : Option α) (u : Nat) : Option α :=
+def relaxF (G : Graph α) (d : Array (Option α)) (v : Nat) (acc : Option α) (u : Nat) : Option α :=
   if v ∈ G.adj u then omin acc ((look d u).map (· + G.w u v)) else acc
 
-theorem relax_eq (G : Graph α) (n : Nat) (d : List (Option α)) (v : Nat) :
-    relax G n d v = (List.range n).foldl (relaxF G d v) (look d v) := rfl
+theorem relax_eq (G : Graph α) (us : List Nat) (d : Array (Option α)) (v : Nat) :
+    relax G us d v = us.foldl (relaxF G d v) (look d v) := rfl
 
-theorem foldl_relaxF_sound (G : Graph α) (d : List (Option α)) (v : Nat) (us : List Nat) (acc : Option α) (c : α)
+theorem foldl_relaxF_sound (G : Graph α) (d : Array (Option α)) (v : Nat) (us : List Nat) (acc : Option α) (c : α)
     (h : us.foldl (relaxF G d v) acc = some c) :
     acc = some c ∨ ∃ u ∈ us, v ∈ G.adj u ∧ ∃ cu, look d u = some cu ∧ c = cu + G.w u v := by
   induction us generalizing acc with
@@ -186,7 +186,7 @@ theorem foldl_relaxF_sound (G : Graph α) (d : List (Option α)) (v : Nat) (us :
       · left; exact h1
     · right; exact ⟨u', List.mem_cons_of_mem _ hu', h2⟩
 
-theorem foldl_relaxF_le_acc (G : Graph α) (d : List (Option α)) (v : Nat) (us : List Nat) (acc : Option α) (x : α)
+theorem foldl_relaxF_le_acc (G : Graph α) (d : Array (Option α)) (v : Nat) (us : List Nat) (acc : Option α) (x : α)
     (h : acc = some x) : ∃ y, us.foldl (relaxF G d v) acc = some y ∧ y ≤ x := by
   induction us generalizing acc x with
   | nil => exact ⟨x, by simpa using h, le_refl _⟩
@@ -201,7 +201,7 @@ theorem foldl_relaxF_le_acc (G : Graph α) (d : List (Option α)) (v : Nat) (us 
     obtain ⟨z, hz, hzy⟩ := ih _ y hy
     exact ⟨z, hz, le_trans hzy hyx⟩
 
-theorem foldl_relaxF_le_edge (G : Graph α) (d : List (Option α)) (v : Nat) (us : List Nat) (acc : Option α)
+theorem foldl_relaxF_le_edge (G : Graph α) (d : Array (Option α)) (v : Nat) (us : List Nat) (acc : Option α)
     (u : Nat) (cu : α) (hu : u ∈ us) (hv : v ∈ G.adj u) (hl : look d u = some cu) :
     ∃ y, us.foldl (relaxF G d v) acc = some y ∧ y ≤ cu + G.w u v := by
   induction us generalizing acc with
@@ -219,7 +219,7 @@ theorem foldl_relaxF_le_edge (G : Graph α) (d : List (Option α)) (v : Nat) (us
     · exact ih _ hu'
 
 theorem look_map_range (n : Nat) (f : Nat → Option α) (v : Nat) :
-    look ((List.range n).map f) v = if v < n then f v else none := by
+    look ((List.range n).map f).toArray v = if v < n then f v else none := by
   unfold look
   by_cases h : v < n
   · simp [h]
@@ -227,8 +227,8 @@ theorem look_map_range (n : Nat) (f : Nat → Option α) (v : Nat) :
 
 /-! ### Bellman–Ford -/
 
-theorem bfIter_sound (G : Graph α) (n s : Nat) (k : Nat) (v : Nat) (c : α)
-    (h : look (bfIter G n s k) v = some c) : ∃ p, isWalk G s p ∧ endOf s p = v ∧ cost G s p = c := by
+theorem bfIter_sound (G : Graph α) (preds : Nat → List Nat) (n s : Nat) (k : Nat) (v : Nat) (c : α)
+    (h : look (bfIter G preds n s k) v = some c) : ∃ p, isWalk G s p ∧ endOf s p = v ∧ cost G s p = c := by
   induction k generalizing v c with
   | zero =>
     simp only [bfIter, look_map_range] at h
@@ -246,8 +246,8 @@ theorem bfIter_sound (G : Graph α) (n s : Nat) (k : Nat) (v : Nat) (c : α)
       · rw [endOf_append]; simp [endOf]
       · rw [cost_append, hp2, hp3, hc]; simp [cost]
 
-theorem bfIter_le (G : Graph α) (n s : Nat) (hr : InRange G n) (hs : s < n) (k : Nat) (p : List Nat)
-    (hp : isWalk G s p) (hk : p.length ≤ k) : ∃ y, look (bfIter G n s k) (endOf s p) = some y ∧ y ≤ cost G s p := by
+theorem bfIter_le (G : Graph α) (preds : Nat → List Nat) (hpr : PredsOk G preds) (n s : Nat) (hr : InRange G n) (hs : s < n) (k : Nat) (p : List Nat)
+    (hp : isWalk G s p) (hk : p.length ≤ k) : ∃ y, look (bfIter G preds n s k) (endOf s p) = some y ∧ y ≤ cost G s p := by
   induction k generalizing p with
   | zero =>
     have : p = [] := List.length_eq_zero_iff.1 (Nat.le_zero.1 hk)
@@ -262,7 +262,7 @@ theorem bfIter_le (G : Graph α) (n s : Nat) (hr : InRange G n) (hs : s < n) (k 
     simp only [bfIter, look_map_range, if_pos hend, relax_eq]
     rcases List.eq_nil_or_concat p with rfl | ⟨q, v, hqv⟩
     · obtain ⟨y, hy, hyc⟩ := ih [] (by simp [isWalk]) (by simp)
-      obtain ⟨z, hz, hzy⟩ := foldl_relaxF_le_acc G (bfIter G n s k) (endOf s []) (List.range n) _ y hy
+      obtain ⟨z, hz, hzy⟩ := foldl_relaxF_le_acc G (bfIter G preds n s k) (endOf s []) (preds (endOf s [])) _ y hy
       exact ⟨z, hz, le_trans hzy hyc⟩
     · rw [List.concat_eq_append] at hqv
       subst hqv
@@ -277,14 +277,14 @@ theorem bfIter_le (G : Graph α) (n s : Nat) (hr : InRange G n) (hs : s < n) (k 
       have e1 : endOf s (q ++ [v]) = v := by rw [endOf_append]; simp [endOf]
       have e2 : cost G s (q ++ [v]) = cost G s q + G.w (endOf s q) v := by rw [cost_append]; simp [cost]
       rw [e1, e2]
-      obtain ⟨z, hz, hzy⟩ := foldl_relaxF_le_edge G (bfIter G n s k) v (List.range n) (look (bfIter G n s k) v)
-        (endOf s q) y (List.mem_range.2 hu) hv hy
+      obtain ⟨z, hz, hzy⟩ := foldl_relaxF_le_edge G (bfIter G preds n s k) v (preds v) (look (bfIter G preds n s k) v)
+        (endOf s q) y (hpr _ _ hv) hv hy
       exact ⟨z, hz, by linarith⟩
 
 /-- every walk is matched by the table after `n - 1` rounds -/
-theorem bellmanFord_le (G : Graph α) (n s : Nat) (hw : NonnegW G) (hr : InRange G n) (hs : s < n)
+theorem bellmanFord_le (G : Graph α) (preds : Nat → List Nat) (hpr : PredsOk G preds) (n s : Nat) (hw : NonnegW G) (hr : InRange G n) (hs : s < n)
     (p : List Nat) (hp : isWalk G s p) :
-    ∃ y, look (bellmanFord G n s) (endOf s p) = some y ∧ y ≤ cost G s p := by
+    ∃ y, look (bellmanFord G preds n s) (endOf s p) = some y ∧ y ≤ cost G s p := by
   obtain ⟨q, hq1, hq2, hq3, hq4, hq5⟩ := exists_simple hw p s hp
   have hlen : (s :: q).length ≤ n := by
     apply nodup_length_le _ _ hq4
@@ -293,7 +293,7 @@ theorem bellmanFord_le (G : Graph α) (n s : Nat) (hw : NonnegW G) (hr : InRange
     · exact hs
     · exact isWalk_mem_range hr q s hq1 x hx
   have : q.length ≤ n - 1 := by simp at hlen; omega
-  obtain ⟨y, hy, hyc⟩ := bfIter_le G n s hr hs (n - 1) q hq1 this
+  obtain ⟨y, hy, hyc⟩ := bfIter_le G preds hpr n s hr hs (n - 1) q hq1 this
   rw [hq2] at hy
   exact ⟨y, hy, le_trans hyc hq3⟩
 
